@@ -99,7 +99,7 @@ func (g *gset) changed() []string {
 
 func c17Plan(tier string) histPlan {
 	if tier == "thorough" {
-		return histPlan{Enum: gen.EnumParams{MaxAdds: []int{4, 3, 2}}, Rand: 120000, Tall: 20}
+		return histPlan{Enum: gen.EnumParams{MaxAdds: []int{4, 3, 2}}, Rand: 500000, Tall: 60}
 	}
 	return histPlan{Enum: gen.EnumParams{MaxAdds: []int{3, 2, 2}}, Rand: 6000, Tall: 3}
 }
